@@ -18,6 +18,7 @@ import (
 //   - slice.Collect(f, xs) is slice.Concat(slice.Map(f, xs));
 //   - slice.Length is slice.Len; slice.IsNotEmpty(X) is not(slice.IsEmpty(X)); (slice.Len(X) eq 0) is
 //     slice.IsEmpty(X), (slice.Len(X) ne 0) and (slice.Len(X) > 0) are its negation (closed forms decided by C13).
+//
 // It works on the text: brackets are balanced in every printed form and literals are quoted Go-style.
 func canonShape(s string) string {
 	// to a fixed point: a rewrite can expose another (not(slice.IsEmpty(..)) under an if)
@@ -249,8 +250,9 @@ func splitTop(s string, sep byte) []string {
 }
 
 // rebuildInfix: the content of a grouping parenthesis.
-//   (slice.Len(X) eq 0) = slice.IsEmpty(X); (slice.Len(X) ne 0) = (slice.Len(X) > 0) = not(slice.IsEmpty(X));
-//   (A eq B) = (B eq A), (A ne B) = (B ne A): the operands are put in lexicographic order.
+//
+//	(slice.Len(X) eq 0) = slice.IsEmpty(X); (slice.Len(X) ne 0) = (slice.Len(X) > 0) = not(slice.IsEmpty(X));
+//	(A eq B) = (B eq A), (A ne B) = (B ne A): the operands are put in lexicographic order.
 func rebuildInfix(inner string) string {
 	// a conjunction / disjunction of call-free comparisons: the operands in lexicographic order (no operand can
 	// fail or have an effect, so their order is immaterial)
